@@ -37,7 +37,7 @@ fn node(a: Rc<LNode>, b: Rc<LNode>) -> Rc<LNode> {
     })
 }
 
-pub const SHAPES: [&str; 7] = [
+pub const SHAPES: [&str; 8] = [
     "chain",
     "left-comb",
     "right-comb",
@@ -45,6 +45,7 @@ pub const SHAPES: [&str; 7] = [
     "spine-with-leaves",
     "fan-out-destructor-released",
     "fan-out-destructor-released-tight",
+    "pool-of-independent-nodes",
 ];
 
 /// A node whose edges are released by its destructor (`pop_edges` takes none of them, which the
@@ -80,6 +81,8 @@ fn build_fan(n: usize) -> Rc<FNode> {
 enum Head {
     L(Rc<LNode>),
     F(Rc<FNode>),
+    /// n unrelated nodes kept in a vector (a cache, a pool): n releases, nothing to cascade
+    P(Vec<Rc<FNode>>),
 }
 // handed from the building thread to the destroying one
 unsafe impl Send for Head {}
@@ -171,7 +174,7 @@ fn finish(n: usize, fan: bool) -> usize {
 }
 
 fn destroy(head: Head, n: usize) -> usize {
-    let fan = matches!(head, Head::F(_));
+    let fan = matches!(head, Head::F(_) | Head::P(_));
     drop(head);
     finish(n, fan)
 }
@@ -335,7 +338,13 @@ pub fn run_case(shape: usize, n: usize, stack_kib: usize, ctx: usize) -> i32 {
     let head = std::thread::Builder::new()
         .stack_size(64 << 20)
         .spawn(move || {
-            let h = if shape >= 5 { Head::F(build_fan(n)) } else { Head::L(build(shape, n)) };
+            let h = if shape == 7 {
+                Head::P((0..n).map(|_| Rc::new(FNode { kids: Vec::new() })).collect())
+            } else if shape >= 5 {
+                Head::F(build_fan(n))
+            } else {
+                Head::L(build(shape, n))
+            };
             rounds(6);
             h
         })
